@@ -359,18 +359,111 @@ func c20Scenario(maxLen int) *explore.Scenario {
 
 func c20Scenarios(thorough bool) []*explore.Scenario {
 	if thorough {
-		return []*explore.Scenario{c20Scenario(5)}
+		return []*explore.Scenario{c20Scenario(5), c20Unset()}
 	}
-	return []*explore.Scenario{c20Scenario(4)}
+	return []*explore.Scenario{c20Scenario(4), c20Unset()}
 }
 
 func init() {
 	register(&Prop{ID: "C20", Level: "model_checking", Variant: "A", Scenarios: c20Scenarios,
 		Run: func(c *explore.Check, thorough bool) {
-			c.Rule = "every sequence of up to 4 (5) calls from {SetSessionCache, BuildHandshakeStateWithoutSession, SetSessionTicketExtension(real ticket of a previous connection), SetSessionState(forged from the known master secret), SetPskExtension(initialised extension of a previous TLS 1.3 session), BuildHandshakeState} followed by Handshake x spec kind {ticket extension only, ticket + pre_shared_key, neither} x {cache set at construction, unset} x server {TLS 1.2, TLS 1.3}, each call classified by a reference model of the documentation (legal / error expected / forbidden / unspecified): legal calls neither panic nor error; with sessions disabled the setters return an error; forbidden calls fail with an error or a documented guard panic; a legal order completes the handshake, carries the injected ticket / PSK identity byte-exact on the wire and resumes on both ends. distinct = (configuration, call sequence)"
+			c.Rule = "every sequence of up to 4 (5) calls from {SetSessionCache, BuildHandshakeStateWithoutSession, SetSessionTicketExtension(real ticket of a previous connection), SetSessionState(forged from the known master secret), SetPskExtension(initialised extension of a previous TLS 1.3 session), BuildHandshakeState} followed by Handshake x spec kind {ticket extension only, ticket + pre_shared_key, neither} x {cache set at construction, unset} x server {TLS 1.2, TLS 1.3}, each call classified by a reference model of the documentation (legal / error expected / forbidden / unspecified): legal calls neither panic nor error; with sessions disabled the setters return an error; forbidden calls fail with an error or a documented guard panic; a legal order completes the handshake, carries the injected ticket / PSK identity byte-exact on the wire and resumes on both ends; plus 6 parrots x {SetSessionState(nil), the same after BuildHandshakeStateWithoutSession, no call} on a connection whose Config holds a warm session cache: after an accepted SetSessionState(nil) the session_ticket extension is empty and the connection does not resume (the control does). distinct = (configuration, call sequence)"
 			c.Assumptions = []string{"the legal/forbidden table encodes a reading of the godoc of BuildHandshakeState, BuildHandshakeStateWithoutSession and the setters (setters before the first BuildHandshakeState; at most one override; a cache must be set); orders the docs are silent about are recorded but not judged"}
 			runAll(c, c20Scenarios(thorough), 0)
 			c.Gate(c.Total.Counters["ticket_injections_judged"] > 50, "non-vacuity: %d ticket injections", c.Total.Counters["ticket_injections_judged"])
 			c.Gate(c.Total.Counters["psk_injections_judged"] > 20, "non-vacuity: %d psk injections", c.Total.Counters["psk_injections_judged"])
 		}})
+}
+
+// c20Unset — the documented way to switch an offered session OFF: SetSessionState(nil) "unsets the
+// body of the session ticket extension" although the session cache holds a resumable session for
+// the name (left there by a first connection through the same Config): the hello then carries an
+// empty session_ticket extension and the connection does not resume at TLS 1.2.
+func c20Unset() *explore.Scenario {
+	var clients []gridClient
+	for _, n := range AllIDs() {
+		switch n.Name {
+		case "HelloChrome_100", "HelloChrome_120", "HelloFirefox_120", "HelloChrome_58", "HelloIOS_14", "HelloChrome_112_PSK_Shuf":
+			clients = append(clients, gridClient{Name: n.Name, ID: n.ID, PSK: specHasPSK(n.ID)})
+		}
+	}
+	return &explore.Scenario{
+		Name:     "SetSessionState-nil-over-a-warm-cache",
+		Watchdog: 60 * time.Second, HangSig: "C20|hang",
+		Run: func(x *explore.X) (r explore.Result) {
+			g := clients[x.Choose("client", len(clients))]
+			how := x.Choose("how", 3) // 0 SetSessionState(nil); 1 the same after an explicit BuildHandshakeStateWithoutSession; 2 control: no call (must resume)
+			what := fmt.Sprintf("%s how=%d", g.Name, how)
+			ccfg := g.config("a.example")
+			ccfg.ClientSessionCache = tls.NewLRUClientSessionCache(4)
+			scfg := peer.ServerConfig()
+			scfg.MaxVersion = tls.VersionTLS12
+			if w := peer.Run(ccfg, g.ID, scfg, peer.Opts{Prepare: g.prepare(), Echo: true}); !(w.OK() && w.EchoOK) {
+				r.Obs = "first-connection-failed"
+				return
+			}
+			var setErr error
+			hs := peer.Run(ccfg, g.ID, scfg, peer.Opts{Echo: true, Prepare: func(u *tls.UConn) error {
+				if how == 1 {
+					if err := u.BuildHandshakeStateWithoutSession(); err != nil {
+						return err
+					}
+				}
+				if how != 2 {
+					setErr = u.SetSessionState(nil)
+				}
+				return nil
+			}})
+			r.Nontrivial = true
+			r.Class = what
+			if hs.CPanic != "" {
+				if documentedPanic.MatchString(firstLineOf(hs.CPanic)) && how == 1 {
+					r.Obs = "documented-guard"
+					return
+				}
+				r.Violate("C20|unset|panic", "%s: %s", what, truncStr(hs.CPanic, 300))
+				return
+			}
+			msgs := peer.ClientHelloMsgs(hs.CE.AllWritten())
+			if len(msgs) == 0 || !hs.OK() {
+				if h0, err := g.probeHello(); err == nil && h0.Find(35) == nil && how != 2 {
+					// a spec without a session_ticket extension cannot carry the (empty) ticket the
+					// caller asked for: the documented answer is an error from the build
+					r.Obs = "spec-without-session-ticket-extension:" + errClass(hs.CErr)
+					return
+				}
+				if setErr != nil || how == 1 {
+					r.Obs = "refused:" + errClass(setErr)
+					return
+				}
+				r.Violate("C20|unset|handshake-fails", "%s: client %v server %v", what, hs.CErr, hs.SErr)
+				return
+			}
+			h, err := wire.ParseClientHello(msgs[0])
+			if err != nil {
+				return
+			}
+			tk := h.Find(35)
+			resumed := hs.U.ConnectionState().DidResume
+			if how == 2 {
+				if tk != nil && !resumed {
+					r.Violate("C20|unset|control-does-not-resume", "%s: without the call the cached session is not resumed", what)
+				}
+				r.Count("unset_control_resumed", 1)
+				r.Obs = fmt.Sprintf("control|resumed=%v", resumed)
+				return
+			}
+			if setErr == nil {
+				if tk != nil && len(tk.Body) != 0 {
+					r.Violate("C20|unset|ticket-on-the-wire", "%s: SetSessionState(nil) returned nil, yet the hello carries a %d-byte session ticket", what, len(tk.Body))
+				}
+				if resumed {
+					r.Violate("C20|unset|resumed", "%s: SetSessionState(nil) returned nil, yet the connection resumed the cached session", what)
+				}
+				r.Count("unset_honoured", 1)
+			}
+			r.Obs = fmt.Sprintf("set-err=%v|ticket=%v|resumed=%v", setErr != nil, tk != nil && len(tk.Body) > 0, resumed)
+			return
+		},
+	}
 }
